@@ -192,7 +192,7 @@ Section Calls.
       if is_not_exist e then
         if negb (has om OpenCreate) then (s, inl (RFail e))
         else match sr_parent r with
-             | None => (s, inl RPanic)
+             | None => (s, inl (RFail e))
              | Some parent =>
                  if negb (perm_on (f_heap s) parent (N.lor OpenWrite OpenLookup) (v_user v))
                  then (s, inl (RFail EPermDenied))
